@@ -238,12 +238,17 @@ fn rand_int_pat(rng: &mut Rng, lo: i64, hi: i64) -> Pat {
         }
     };
     let a = pick(rng);
-    let b = pick(rng);
+    let mut b = pick(rng);
+    if hi < i64::MAX / 4 && rng.below(12) == 0 {
+        // a literal / upper bound that is not a value of the type (must be refused or never match)
+        b = hi + 1 + (rng.next() % 300) as i64;
+    }
     let (a, b) = (a.min(b), a.max(b));
     match rng.below(8) {
         0 => Pat::Wild,
         1 => Pat::Bind,
-        2 | 3 => Pat::Int(a),
+        2 => Pat::Int(a),
+        3 => Pat::Int(b),
         4 | 5 => Pat::Incl(a, b),
         _ => {
             if a < b { Pat::Excl(a, b) } else { Pat::Incl(a, b) }
@@ -294,7 +299,21 @@ fn directed(t: &Ty) -> Vec<Vec<Pat>> {
     if let Ty::Int(_, lo, hi) = t {
         let mid = if *lo < 0 { 0 } else { lo + (hi - lo) / 2 };
         if *hi == i64::MAX { return vec![vec![Pat::Incl(*lo, -1), Pat::Incl(0, *hi)]]; }
-        vec![
+        let mut out_of_range = vec![];
+        if *hi < i64::MAX / 4 {
+            // literals and range bounds outside the scrutinee type (between signed and unsigned literals, beyond MAX):
+            // they denote no value of the type, so they must be refused or never match
+            let w = *hi - *lo + 1; // 2^bits
+            out_of_range = vec![
+                vec![Pat::Int(*hi + 1), Pat::Wild],
+                vec![Pat::Int(*lo + w + 44), Pat::Wild],
+                vec![Pat::Incl(*hi - 5, *hi + 7), Pat::Wild],
+                vec![Pat::Incl(*hi + 1, *hi + w / 2), Pat::Wild],
+                vec![Pat::Incl(*lo, *hi + w)],
+                vec![Pat::Incl(*lo, *hi + w), Pat::Wild],
+            ];
+        }
+        let mut v = vec![
             vec![Pat::Incl(*lo, mid - 1), Pat::Incl(mid, *hi)],
             vec![Pat::Excl(*lo, mid), Pat::Incl(mid, *hi)],
             vec![Pat::Int(*lo), Pat::Incl(lo + 1, hi - 1), Pat::Int(*hi)],
@@ -303,7 +322,13 @@ fn directed(t: &Ty) -> Vec<Vec<Pat>> {
             vec![Pat::Incl(*lo, mid - 1), Pat::Incl(mid + 1, *hi)],
             vec![Pat::Int(mid), Pat::Incl(*lo, *hi)],
             vec![Pat::Incl(*lo, -1i64.max(*lo)), Pat::Int(0i64.clamp(*lo, *hi)), Pat::Incl(1i64.clamp(*lo, *hi), *hi)],
-        ]
+        ];
+        v.extend(out_of_range);
+        // empty and inverted ranges match nothing
+        v.push(vec![Pat::Excl(*lo, *lo), Pat::Wild]);
+        v.push(vec![Pat::Excl(mid, mid), Pat::Wild]);
+        v.push(vec![Pat::Incl(mid + 3, mid), Pat::Wild]);
+        v
     } else {
         vec![]
     }
